@@ -577,7 +577,7 @@ Fixpoint same (fuel : nat) (want got : loc) : M bool :=
                       | [] => ret true
                       | (k, i) :: t =>
                           match plookup k (pairs gm) with
-                          | None => crash "same: nil value"     (* got.Pairs[key] is nil; same(v, nil) hits no case: false *)
+                          | None => ret false     (* got.Pairs[key] is nil; same(v, nil) matches no case: false *)
                           | Some j => let* e := same f i j in if e then go t else ret false
                           end
                       end) (pairs wm)
@@ -996,7 +996,9 @@ with exec_stmt (n : nat) (P : program) (e : env) (s : stmt) {struct n} : M (sign
         let* e' := set_var name c e in
         ret (SigNone, e')
     | SAssign target x =>
-        let* v := eval_expr f P e x in
+        let* v0 := eval_expr f P e x in
+        let* d := depth_fuel in
+        let* v := copy_or_ref d v0 in          (* val = copyOrRef(val) *)
         match target with
         | EVar name _ => let* e' := update_var name v e in ret (SigNone, e')
         | EIndex _ a i =>
